@@ -192,7 +192,10 @@ func fromCtyNumberUInt(bf *big.Float, target reflect.Value, path cty.Path) error
 	}
 
 	iv, accuracy := bf.Uint64()
-	if accuracy != big.Exact || iv > max {
+	// big.Float.Uint64 reports Exact for some non-integers (it only checks
+	// that the mantissa fits in 64 bits), so we must test for a whole number
+	// ourselves rather than silently truncating the fraction.
+	if accuracy != big.Exact || !bf.IsInt() || iv > max {
 		return path.NewErrorf("value must be a whole number, between 0 and %d inclusive", max)
 	}
 
